@@ -232,6 +232,24 @@ def pickler_layout(repo: Repo):
             good = isinstance(par, ast.Call) and isinstance(par.func, ast.Attribute) and par.func.attr == "append" and node in par.args
             ob(f"items-only-appended/{k}", good, f"{node.func.id}(...) at line {node.lineno} is not the argument of .append(...)", None, node.lineno)
             k += 1
+    # every byte stream comes from the verified scheduler: the module-level wrappers build a _NonrecursivePickler and call its dump()
+    # once; nothing in the module hands the object to another pickler (pickle / dill dumps, dump, Pickler(...))
+    for node in ast.walk(mod.tree):
+        if isinstance(node, ast.Call) and isinstance(node.func, ast.Attribute) and isinstance(node.func.value, ast.Name) \
+                and node.func.value.id in ("pickle", "dill", "_pickle", "cPickle") and node.func.attr in ("dumps", "dump", "Pickler", "_Pickler"):
+            ob(f"no-other-pickler/{node.func.value.id}.{node.func.attr}@{node.lineno}", False,
+               f"{node.func.value.id}.{node.func.attr}(...) at line {node.lineno}: the object would be serialised outside _NonrecursivePickler", None, node.lineno)
+    for wname in ("dumps", "dump"):
+        fi = mod.functions.get(wname)
+        if fi is None:
+            ob(f"wrapper-present/{wname}", False, f"module function {wname} is missing")
+            continue
+        ctor = [n for n in ast.walk(fi.node) if isinstance(n, ast.Call) and isinstance(n.func, ast.Name) and n.func.id == "_NonrecursivePickler"]
+        dcall = [n for n in ast.walk(fi.node) if isinstance(n, ast.Call) and isinstance(n.func, ast.Attribute) and n.func.attr == "dump"]
+        branches = [n for n in ast.walk(fi.node) if isinstance(n, (ast.If, ast.Try, ast.While, ast.For, ast.IfExp))]
+        ob(f"wrapper-shape/{wname}", len(ctor) == 1 and len(dcall) == 1 and not branches and len(dcall[0].args) == 1
+           and isinstance(dcall[0].args[0], ast.Name) and dcall[0].args[0].id == "obj",
+           f"{wname} must build one _NonrecursivePickler and call its dump(obj) exactly once, unconditionally", fi, fi.lineno)
     for cn in ("_LazySave", "_LazyMemo"):
         c2 = repo.classes.get(cn)
         okc = c2 is not None and set(c2.methods) <= {"__init__", "__repr__"} and not c2.getters and \
